@@ -139,9 +139,10 @@ def move(src_i: int, form_i: int, dst_i: int, marker_i: int, tmpl: bool) -> bool
     post: _
     """
     ob = run_move(src_i, form_i, dst_i, marker_i, tmpl)
+    excluded = kf_excluded(src_i, dst_i)      # (evaluated while tracing: the arguments are symbolic)
     with NoTracing():
         ob = deep_realize(ob)
-        if kf_excluded(src_i, dst_i):
+        if excluded:
             return True
         ok, _why = cm.judge(ob, compile_text)
     return V(ok)
